@@ -1374,6 +1374,23 @@ func (w *c01World) relCompress(weights []int) {
 	w.m.Rows = got
 }
 
+// c01CoreOps: the operations most entangled with the name index, the cached
+// length and the duplicate-name policy; histories of 4 of them are searched in
+// the thorough tier (all operations: histories of 3).
+var c01CoreOps = map[string]bool{
+	"policy:name": true, "policy:sequence": true,
+	"add:a:same": true, "add:b:dupseq": true, "add:c:long": true, "add:a_0001:same": true,
+	"append:shareAll": true, "append:disjoint": true, "append:wrongLen": true,
+	"concat:share1": true, "concat:disjoint": true, "concat:empty": true,
+	"rename:a>c": true, "rename:a>b": true, "rename:swapab": true, "renameRegexp:^a>z": true,
+	"appendId:_x:right": true, "cleanNames": true, "trimNames:3": true, "trimNamesAuto": true,
+	"sort": true, "shuffle": true, "sample:1": true,
+	"filterLength:L+1:-1": true, "filterLength:-1:L-1": true, "dedup:false": true,
+	"removeGapSeqs:0": true, "removeGapSites:0": true, "translate:0": true,
+	"trimSeq:1:start": true, "subAlign:0:1": true, "clone": true, "unalign": true, "clear": true,
+	"replaceChar:row0:0:T": true, "compress": true,
+}
+
 // ---------------------------------------------------------------- initial states
 
 type c01Init struct {
@@ -1513,13 +1530,13 @@ func c01Report(c *mc.Ctx, in c01Init, ops []int, pts []vrt.Point, w *c01World) {
 // operation.  New canonical states (not in seen / local) are returned as the
 // next frontier and recorded in local.  With report=false nothing is counted or
 // reported (the level is being recomputed as the shared prefix of a shard).
-func c01Level(c *mc.Ctx, in c01Init, frontier []c01State, seen, local map[string]bool, report, keep bool, filter func(idx int) bool) (next []c01State, complete bool) {
+func c01Level(c *mc.Ctx, in c01Init, opset []int, frontier []c01State, seen, local map[string]bool, report, keep bool, filter func(idx int) bool) (next []c01State, complete bool) {
 	complete = true
 	for idx, st := range frontier {
 		if filter != nil && !filter(idx) {
 			continue
 		}
-		for op := range c01OpList {
+		for _, op := range opset {
 			if c.Expired() {
 				return next, false
 			}
@@ -1584,6 +1601,7 @@ func c01Level(c *mc.Ctx, in c01Init, frontier []c01State, seen, local map[string
 // c01Prefix is the search down to the last-but-one level for one initial
 // container: shared by all shards of that container and cached per worker process.
 type c01Prefix struct {
+	opsetN   int
 	init     string
 	depth    int
 	seen     map[string]bool
@@ -1593,11 +1611,11 @@ type c01Prefix struct {
 
 var c01Cache *c01Prefix
 
-func c01GetPrefix(c *mc.Ctx, in c01Init, depth int, report bool) *c01Prefix {
-	if !report && c01Cache != nil && c01Cache.init == in.Name && c01Cache.depth == depth && c01Cache.complete {
+func c01GetPrefix(c *mc.Ctx, in c01Init, opset []int, depth int, report bool) *c01Prefix {
+	if !report && c01Cache != nil && c01Cache.init == in.Name && c01Cache.depth == depth && c01Cache.opsetN == len(opset) && c01Cache.complete {
 		return c01Cache
 	}
-	p := &c01Prefix{init: in.Name, depth: depth, seen: map[string]bool{}, complete: true}
+	p := &c01Prefix{init: in.Name, depth: depth, opsetN: len(opset), seen: map[string]bool{}, complete: true}
 	w0 := c01Run(in, nil, 0)
 	if report {
 		c.Eval()
@@ -1613,7 +1631,7 @@ func c01GetPrefix(c *mc.Ctx, in c01Init, depth int, report bool) *c01Prefix {
 	p.frontier = []c01State{{}}
 	for level := 1; level < depth; level++ {
 		var ok bool
-		p.frontier, ok = c01Level(c, in, p.frontier, nil, p.seen, report, true, nil)
+		p.frontier, ok = c01Level(c, in, opset, p.frontier, nil, p.seen, report, true, nil)
 		if !ok {
 			p.complete = false
 			p.frontier = nil
@@ -1630,16 +1648,16 @@ func c01GetPrefix(c *mc.Ctx, in c01Init, depth int, report bool) *c01Prefix {
 // container.  Levels 1..depth-1 are recomputed (silently, cached per worker
 // process) with global de-duplication; shard 0 also reports them.  The last
 // level is partitioned over the shards by frontier position.
-func c01Task(c *mc.Ctx, in c01Init, shard, nshards, depth int) {
+func c01Task(c *mc.Ctx, in c01Init, opset []int, shard, nshards, depth int) {
 	if shard == 0 {
-		c01GetPrefix(c, in, depth, true)
+		c01GetPrefix(c, in, opset, depth, true)
 	}
-	p := c01GetPrefix(c, in, depth, false)
+	p := c01GetPrefix(c, in, opset, depth, false)
 	if !p.complete {
 		return
 	}
 	local := map[string]bool{}
-	c01Level(c, in, p.frontier, p.seen, local, true, false, func(idx int) bool { return idx%nshards == shard })
+	c01Level(c, in, opset, p.frontier, p.seen, local, true, false, func(idx int) bool { return idx%nshards == shard })
 }
 
 func c01Replay(c *mc.Ctx, h c01Hist) {
@@ -1684,7 +1702,7 @@ func init() {
 	mc.Register(&mc.Prop{
 		ID:    "C01",
 		Level: "model_checking",
-		Rule: fmt.Sprintf("explicit-state breadth-first search over ALL histories of up to 3 (quick) / 4 (thorough) operations drawn from %d concrete public SeqBag/Alignment operations "+
+		Rule: fmt.Sprintf("explicit-state breadth-first search over ALL histories of up to 3 operations drawn from %d concrete public SeqBag/Alignment operations (thorough: additionally all histories of up to 4 operations drawn from a core of 36 of them) "+
 			"(IgnoreIdentical x3 policies, AddSequence {existing, new, auto-renamed name} x {same length, same content, wrong length}, Append/Concat with 0/1/all shared names, wrong length and empty arguments, Rename incl. swap and caller-made collision, RenameRegexp, AppendSeqIdentifier, CleanNames, TrimNames, TrimNamesAuto, Sort, ShuffleSequences and Sample/SampleSeqBag under EVERY sequence of RNG answers, FilterLength over 25 bound pairs, Deduplicate, RemoveGapSeqs/Sites at cut-offs 0 and 1, Translate in frames 0,1,2 and all three, TrimSequences, SubAlign/SelectSites/Clone/CloneSeqBag/Unalign with adoption of the result, Compress, Clear, ToUpper/ToLower, ReplaceChar, SetSequenceChar) "+
 			"from %d initial containers (empty, 1x1, 2x2, mixed case, 3x6 coding, one column, auto-renamed duplicate name, names with special characters, protein, ragged sequence set, empty set); states de-duplicated on the private representation (rows, name index, cached length, alphabet, policy, buffer aliasing); "+
 			"after EVERY transition: equality with a list-of-(name,sequence) reference model + rectangularity + index/name/iteration lookups agree + names distinct unless caller-made. states = canonical states (distinct within a shard), transitions = real operation calls checked, distinct_nontrivial = distinct (initial container, canonical state) reached by a successful state-changing operation.", len(c01OpList), len(c01Inits)),
@@ -1695,22 +1713,36 @@ func init() {
 			"derived objects (SubAlign, Clone, Sample …) get their duplicate-name policy set explicitly after creation (inheritance is undocumented)",
 		},
 		Tasks: func(tier string) []mc.Task {
-			depth := 3
+			all := make([]int, len(c01OpList))
+			for i := range all {
+				all[i] = i
+			}
+			var core []int
+			for i, op := range c01OpList {
+				if c01CoreOps[op.Name] {
+					core = append(core, i)
+				}
+			}
+			type plan struct {
+				name    string
+				opset   []int
+				depth   int
+				nshards int
+			}
+			plans := []plan{{"all", all, 3, 16}}
 			if tier == "thorough" {
-				depth = 4
+				plans = append(plans, plan{"core", core, 4, 48})
 			}
 			if d, err := strconv.Atoi(os.Getenv("C01_DEPTH")); err == nil && d > 0 {
-				depth = d // development aid
-			}
-			nshards := 16
-			if depth >= 4 {
-				nshards = 64
+				plans = []plan{{"all", all, d, 16}} // development aid
 			}
 			var ts []mc.Task
-			for _, in := range c01Inits {
-				for sh := 0; sh < nshards; sh++ {
-					in, sh := in, sh
-					ts = append(ts, mc.Task{Name: fmt.Sprintf("%s#shard%d/%d", in.Name, sh, nshards), Run: func(c *mc.Ctx) { c01Task(c, in, sh, nshards, depth) }})
+			for _, pl := range plans {
+				for _, in := range c01Inits {
+					for sh := 0; sh < pl.nshards; sh++ {
+						in, sh, pl := in, sh, pl
+						ts = append(ts, mc.Task{Name: fmt.Sprintf("%s-%s-d%d#shard%d/%d", in.Name, pl.name, pl.depth, sh, pl.nshards), Run: func(c *mc.Ctx) { c01Task(c, in, pl.opset, sh, pl.nshards, pl.depth) }})
+					}
 				}
 			}
 			return ts
